@@ -15,16 +15,17 @@ PROPERTY = "C20"
 LEVEL = "exploration"
 RULE = (
     "cases = histories over a named stack (1-4 layers over a manual base, a recording tap below every layer) or over f_* combinators: "
-    "submissions with outcome scripts, manual jobs run / failed / cancelled behind the back, cancels while queued in a throttle, between "
-    "retries and in flight, timeouts that fire, at most one shutdown; metrics are sampled (together with the state of every future) at "
-    "quiescent points in the middle and at the end; tape. Oracle = a model computed from the recorded history, never from the "
-    "library: future_inprogress / future_total / future_cancel / future_error for every layer that sees each submission exactly once, "
+    "submissions with outcome scripts, manual jobs run / failed / cancelled behind the back, cancels while queued in a throttle, "
+    "between retries and in flight, timeouts that fire, at most one shutdown (catalogue: concurrent shutdowns, submissions refused "
+    "after shutdown, a delegate whose shutdown() raises); metrics are sampled (together with the state of every future) at quiescent "
+    "points in the middle and at the end; tape. Oracle = a model computed from the recorded history, never from the library: "
+    "future_inprogress / future_total / future_cancel / future_error for every layer that sees each submission exactly once, "
     "exec_inprogress / exec_total per layer, retry_queue (= futures of that retry layer not yet done), throttle_queue (= accepted, "
-    "not handed over, not cancelled), retry_total (= delegate submissions beyond the first per future), poll_total / poll_error (= poll "
-    "calls / raising poll calls), timeout and shutdown_cancel (= successful cancels only); no gauge child below 0 at any time. "
+    "not handed over, not cancelled), retry_total (= delegate submissions beyond the first per future), poll_total / poll_error (= "
+    "poll calls / raising poll calls), timeout and shutdown_cancel (= successful cancels only); no gauge child below 0 at any time. "
     "Plus a Hypothesis RuleBasedStateMachine (step-wise engine) over one named retry or throttle layer: rules submit / run / cancel / "
-    "cancel behind the back / advance / shutdown, every gauge and counter compared with reality after EVERY rule. "
-    "Non-trivial = the history contains a cancel, a timeout or a retry. Distinct = digest of the case."
+    "cancel behind the back / advance / shutdown, every gauge and counter compared with reality after EVERY rule. Non-trivial = the "
+    "history contains a cancel, a timeout or a retry. Distinct = digest of the case."
 )
 ASSUMPTIONS = [
     "exec_inprogress follows the documented meaning (created minus first shutdown), not liveness of the object",
